@@ -174,6 +174,11 @@ func propC01(w *World, r *Report) {
 	}
 	checkRingAdvancesOncePerFrame(w, r, runs, "O1", true, false)
 	checkSinksDistinct(w, r, runs, "O1") // nothing else writes into the motion recording's file
+	// the request goroutines only READ the ring: CopyRecent stores nothing (a temporary rewind of the position would be
+	// seen by the frame loop, which reads it without the lock)
+	linkObligations(w, r, propC19, "C19", func(o *Obligation) bool {
+		return strings.HasPrefix(o.Construct, "CopyRecent reads under the ring's lock and modifies nothing") || strings.HasPrefix(o.Construct, "CopyRecent returns a fresh copy")
+	}, "O2")
 }
 
 // checkMarkOnlyAfterStop: the oldest-mark (which discards buffered pre-trigger frames) is placed only in a
@@ -357,6 +362,13 @@ func propC02(w *World, r *Report) {
 	checkSettingsImmutable(w, r, "P1", "RecorderConfig:PreviewSecs", "ThermalRecorder:PreviewSecs", "Config:Recorder") // preview-secs reaches the processor as configured
 	checkRingAdvancesOncePerFrame(w, r, runs, "P2", true, false)
 	checkRingSlotFilledByDeepCopy(w, r, runs, "P2")
+	// when the motion sink is the throttler: a start that fails in the file recorder reaches the processor as an error
+	// (else the processor writes its preview into a recording that does not exist and the throttler drops those frames)
+	if tr, err := getThrottleRuns(w); err == nil {
+		checkThrottleStartFailureSurfaces(w, r, tr, "P3")
+	} else {
+		r.Unknown("P3", "throttle start failure", "-", err.Error())
+	}
 	checkRingCapacityExact(w, r, "P1")
 }
 
@@ -1130,6 +1142,7 @@ func propC13(w *World, r *Report) {
 	}
 	r.Check(len(ps) >= 1, "G4", "a parse call site exists", "-", fmt.Sprint(len(ps)))
 	checkParsers(w, r, "B1")
+	checkParserEdgeArg(w, r, "B1")
 	checkHandleConnBadFrame(w, r)
 	checkSettingsImmutable(w, r, "B1", "ThermalMotion:EdgePixels", "Config:Motion") // the border the parsers tolerate zeros in is the configured edge-pixels
 	checkRingAdvancesOncePerFrame(w, r, runs, "B3", false, true)
@@ -1860,4 +1873,34 @@ func checkStopTaken(w *World, r *Report, runs *motionRuns, roles *motionRoles, r
 	default:
 		r.Check(nA > 0, rule, "stop taken exactly when written >= target", "-", detail)
 	}
+}
+
+// checkParserEdgeArg: the frame parser is always told the configured edge width - the detector's start offset, read at
+// the call: which zero pixels make a frame "bad" must not depend on anything else (what happened to earlier frames, a
+// mode flag): border pixels would then decide which frames are dropped and where recordings are cut.
+func checkParserEdgeArg(w *World, r *Report, rule string) {
+	runs, err := getMotionRuns(w)
+	if err != nil {
+		r.Unknown(rule, "motion.MotionProcessor", "-", "role resolution failed: "+err.Error())
+		return
+	}
+	d := getDetector(w)
+	if d == nil || d.Err != nil {
+		r.Unknown(rule, "motion detector", "-", "roles not resolved")
+		return
+	}
+	n := 0
+	for _, ev := range eventsOfKind(runs.fault, "obs:parse", -1) {
+		ci, ok := ev.Instr.(ssa.CallInstruction)
+		if !ok || len(ci.Common().Args) < 3 {
+			continue
+		}
+		n++
+		e := newTermEnv(w)
+		e.valueHelpers = true
+		got := e.termOf(ci.Common().Args[2]).String()
+		want := "motion.motionDetector." + d.fname("start") + "@"
+		r.Check(strings.HasPrefix(got, want) && !strings.Contains(got, "select(") && !strings.Contains(got, "phi("), rule, "the parser is handed the configured edge width (the detector's bound, whatever happened before)", w.InstrPos(ev.Instr), got)
+	}
+	r.Check(n >= 1, rule, "parse call sites found", "-", fmt.Sprint(n))
 }
